@@ -288,7 +288,7 @@ Verdict(x) ==
 (* ---- laws (checked by TLC on every case) ---------------------------------------------------- *)
 E == Verdict(c)
 
-TypeOK == /\ c \in Cases
+TypeOK == /\ c.mode \in {"strict", "laxTop", "laxAncestor", "fieldTag"} /\ c.defect \in Defects \cup {"none"}
           /\ LaxTolerated \cap AlwaysRejected = {} /\ LaxTolerated \cap DeliberateDiff = {}
           /\ AlwaysRejected \cap DeliberateDiff = {} /\ Benign \cap (LaxTolerated \cup AlwaysRejected \cup DeliberateDiff) = {}
 
